@@ -161,6 +161,10 @@ def has_parameter(component, name) -> bool:
     return name in inspect.signature(component).parameters.keys()
 
 
+def get_class_methods(component) -> List[str]:
+    return [k for k, v in inspect.getmembers(component) if (callable(v) or isinstance(v, property)) and k[0] != "_"]
+
+
 def _add_component_to_parser(
     component,
     parser: ArgumentParser,
@@ -170,9 +174,7 @@ def _add_component_to_parser(
 ):
     kwargs: dict = dict(as_positional=as_positional, fail_untyped=fail_untyped, sub_configs=True)
     if inspect.isclass(component):
-        class_methods = [
-            k for k, v in inspect.getmembers(component) if (callable(v) or isinstance(v, property)) and k[0] != "_"
-        ]
+        class_methods = get_class_methods(component)
         if not class_methods:
             added_args = parser.add_class_arguments(component, as_group=False, **kwargs)
             if not parser.description:
@@ -201,12 +203,16 @@ def _add_component_to_parser(
 
 def _run_component(component, cfg):
     cfg.pop("config", None)
-    subcommand = cfg.pop("subcommand")
-    if inspect.isclass(component) and subcommand:
+    subcommand = None
+    if inspect.isclass(component) and get_class_methods(component):
+        subcommand = cfg.pop("subcommand")
+    if subcommand:
         subcommand_cfg = cfg.pop(subcommand, {})
-        subcommand_cfg.pop("config", None)
+        method_object = getattr(component, subcommand)
+        if not isinstance(method_object, property) and not has_parameter(method_object, "config"):
+            subcommand_cfg.pop("config", None)
         component_obj = component(**cfg)
-        if isinstance(getattr(component, subcommand), property):
+        if isinstance(method_object, property):
             return getattr(component_obj, subcommand)
         component = getattr(component_obj, subcommand)
         cfg = subcommand_cfg
